@@ -641,7 +641,14 @@ class FunctionDefinition(TypedExpression):
             self.output and getattr(self.output, "has_scope", lambda: False)()
         )
         output_multiline = False
-        if self.output is not None:
+        output_inline_preview = None
+        if (
+            self.output is not None
+            and self.breaks_after_semicolon is None
+            and not output_has_scope
+        ):
+            # The preview only decides the layout when nothing was captured; rendering the
+            # body here and again below made curried lambdas cost 2^depth rebuild calls.
             output_inline_preview = self.output.rebuild(indent=base_indent, inline=True)
             output_multiline = "\n" in output_inline_preview
 
@@ -659,11 +666,12 @@ class FunctionDefinition(TypedExpression):
         )
         line_break = "\n" * breaks_after_semicolon
         output_inline = line_break == ""
-        output_str = (
-            self.output.rebuild(indent=base_indent, inline=output_inline)
-            if self.output
-            else "{ }"
-        )
+        if not self.output:
+            output_str = "{ }"
+        elif output_inline and output_inline_preview is not None:
+            output_str = output_inline_preview
+        else:
+            output_str = self.output.rebuild(indent=base_indent, inline=output_inline)
         return line_break, output_str
 
     def _format_colon_split(self, *, base_indent: int, line_break: str) -> str:
